@@ -588,12 +588,19 @@ func main() {
 	vals = polyenv.Keys(nVals)
 	polyenv.Setup(0, vals)
 	r.Require("commit:canonical", "reject", "noop-nil", "resubmit-unchanged", "header-accepted", "header-rejected")
+	// concurrency dimension first (small, and it must not be starved by the sequential exploration's budget)
+	var cs *concStats
+	if os.Getenv("C13_NO_CONC") == "" {
+		r.Require("schedule:thread-blocked-on-saving-lock", "schedule:sequentially-consistent")
+		cs = runConcurrency(r)
+	}
 
 	genesis := polyenv.Rehash(polyenv.GenesisBlock(vals))
 	init0 := state{Desc: []string{"genesis"}, Blocks: []*types.Block{genesis}}
 
 	// hdr+add with a deviation that passes the header-level checks leaves an uncommitted header behind (the
 	// ledger must then be rebuilt), so only two block-root deviations take that path.
+	quickTier := r.Quick()
 	hdrRootDevs := map[string]bool{"root=zero": true, "root=of-previous-size": true}
 	events := func(s state, d int) []string {
 		var out []string
@@ -624,7 +631,8 @@ func main() {
 		for _, k := range kinds {
 			for _, dl := range deltas {
 				for pi, p := range paths {
-					if i == len(s.Blocks)%6 || pi == (i+len(s.Blocks))%4 {
+					allPaths := i == len(s.Blocks)%6 && (len(s.Blocks) <= 2 || !quickTier) // quick: all four paths only in shallow states
+					if allPaths || pi == (i+len(s.Blocks))%4 {
 						out = append(out, fmt.Sprintf("ok|%c+%d|%s", k, dl, p))
 					}
 				}
@@ -828,7 +836,16 @@ func main() {
 	for _, d := range devs {
 		dn = append(dn, d.name)
 	}
-	r.Finish(map[string]any{
+	cov := map[string]any{}
+	if cs != nil {
+		cov = map[string]any{"concurrency_thread_pairs": cs.pairs, "concurrency_schedules": cs.schedules,
+			"concurrency_schedules_preemption_bound_1": cs.bound1, "concurrency_schedules_preemption_bound_2": cs.bound2,
+			"concurrency_schedules_with_a_thread_blocked_on_the_saving_lock": cs.blockedSeen,
+			"concurrency_schedules_with_B_parked_mid_commit":                 cs.parkedB,
+			"concurrency_distinct_outcomes":                                  len(cs.outcomes), "concurrency_outcomes": cs.outcomes,
+			"concurrency_rule": "2 real goroutines on one store, switch points = persistence hook, blocked = goroutine in chan send inside getSavingBlockLock; final ledger == a sequential outcome, accumulator/state tree size == height+1, next root == reference, lookups == model, successor accepted, reopen equal; deadlock = violation"}
+	}
+	fin := map[string]any{
 		"rule":                          "ledger changed => block at tip+1, prev = tip, timestamp > parent, block root = reference accumulator root; lookups == model after every commit; resubmission / rejection leaves stores byte-identical",
 		"states":                        st.States,
 		"transitions":                   st.Transitions,
@@ -839,5 +856,9 @@ func main() {
 		"paths":                         paths,
 		"deviations":                    dn,
 		"canonical_alphabet":            "contents {E,G,D} x timestamp step {+1,+7}",
-	})
+	}
+	for k, v := range cov {
+		fin[k] = v
+	}
+	r.Finish(fin)
 }
